@@ -68,7 +68,7 @@ impl Engine for St {
             "C12" => vec![p("concat.xz", 40000, 1_000_000), p("concat.lzip", 20000, 500_000)],
             "C13" => vec![p("determ.repeat", 12000, 400_000), p("determ.partition", 12000, 400_000)],
             "C16" => vec![p("exact", 80000, 3_000_000)],
-            "C15" => vec![p("oob.encode", 6000, 300_000), p("oob.decode", 40000, 2_000_000)],
+            "C15" => vec![p("oob.window", 160, 3000), p("oob.encode", 5000, 300_000), p("oob.decode", 25000, 2_000_000)],
             "C17" => vec![p("mem.encoder", 1200, 20000), p("mem.decoder.lzma", 4000, 60000), p("mem.decoder.lzma2", 2000, 30000), p("mem.limit", 8000, 100000)],
             "C19" => vec![p("misconfig", 30000, 600_000)],
             "C18" => vec![p("sizes", 40000, 1_500_000)],
@@ -211,6 +211,35 @@ impl Engine for St {
 
 fn main() {
     let args: Vec<String> = std::env::args().collect();
+    if args.get(1).map(|s| s.as_str()) == Some("guardtest2") {
+        use std::io::Write;
+        let n: usize = args[2].parse().unwrap();
+        let period: usize = args[3].parse().unwrap();
+        let mode = if args[4] == "fast" { lz::EncodeMode::Fast } else { lz::EncodeMode::Normal };
+        let mf = if args[5] == "hc4" { lz::MFType::HC4 } else { lz::MFType::BT4 };
+        let data: Vec<u8> = (0..n).map(|i| ((i % period) as u32).wrapping_mul(2654435761) as u8).collect();
+        let mut out = Vec::with_capacity(n);
+        simcore::alloc::set_guard(true);
+        let o = lz::LZMAOptions::new(4096, 3, 0, 2, mode, 32, mf, 0);
+        let mut w = lz::LZMA2Writer::new(&mut out, lz::LZMA2Options { lzma_options: o, chunk_size: None });
+        w.write_all(&data).unwrap();
+        w.finish().unwrap();
+        simcore::alloc::set_guard(false);
+        println!("survived: {} -> {} bytes", n, out.len());
+        return;
+    }
+    if args.get(1).map(|s| s.as_str()) == Some("guardtest") {
+        // self-test of the guard-page allocator mode: must die with SIGSEGV
+        simcore::alloc::set_guard(true);
+        let v = vec![0u8; 334097];
+        let w = vec![7u8; 5000];
+        println!("guarded allocations: {}", simcore::alloc::guarded_allocations());
+        let x = unsafe { std::ptr::read_volatile(w.as_ptr().add(4999)) };
+        println!("last byte readable: {x}");
+        let y = unsafe { std::ptr::read_volatile(v.as_ptr().add(v.len())) };
+        println!("NOT REACHED: read one past the end: {y}");
+        return;
+    }
     if args.get(1).map(|s| s.as_str()) == Some("dump") && args.len() >= 4 {
         // debugging aid: encode the case of a replay file and write the compressed bytes out
         simcore::run::install_panic_hook();
